@@ -36,6 +36,8 @@ struct tmrec {
 	long esec, ensec;
 	int fired_this_reg;
 	int id;
+	int reg_wait;		/* number of waits entered when it was registered */
+	int overdue;		/* was due when a wait returned and did not run in the iteration that followed */
 };
 
 struct tkrec {
@@ -55,6 +57,7 @@ static int nK, nT, nJ;
 
 /* parameters */
 static int P_method, P_R, P_A, P_L, P_acts, P_symtruth, P_persist, P_symtime, P_faults;
+static long P_tick;
 #define ACT_UNREG_FD	1
 #define ACT_SETH	2
 #define ACT_REG_FD	4
@@ -71,6 +74,7 @@ static int quit_called;
 static int in_main;
 static int cb_depth;
 static int nwaits;
+static int prev_wait_returned;	/* the previous wait returned normally (not interrupted) */
 static int callbacks_since_wait;
 static int last_wait_nready, fruitless_wakeups;
 static int zero_waits_in_a_row;
@@ -284,6 +288,28 @@ static void h_err(void *c)
 	fd_handler_common(c, B_ERR);
 }
 
+/* the loop's clock as the application sees it (iv_now): it is never ahead of the kernel clock, it never runs backwards, and inside a timer handler it is at or past
+ * that timer's expiry (C04's statement in terms of the public clock) */
+static struct ktime prev_iv_now;
+static int have_prev_iv_now;
+
+static void check_iv_now(const struct ktime *expiry)
+{
+	const struct timespec *n = __iv_now_location_valid();
+	struct ktime v;
+
+	v.sec = n->tv_sec;
+	v.nsec = n->tv_nsec;
+	sx_assert(have_reading && k_time_le(&v, &k_now), "C04.iv_now-ahead-of-the-kernel-clock");
+	if (have_prev_iv_now)
+		sx_assert(k_time_le(&prev_iv_now, &v), "C04.iv_now-runs-backwards");
+	if (expiry != NULL)
+		sx_assert(k_time_le(expiry, &v), "C04.iv_now-before-expiry-in-timer-handler");
+	prev_iv_now = v;
+	have_prev_iv_now = 1;
+	sx_cover("C04.iv_now-read");
+}
+
 /* ------------------------------------------------------------ timers */
 static void op_timer_register(struct tmrec *r)
 {
@@ -318,6 +344,8 @@ static void op_timer_register(struct tmrec *r)
 	sx_assert(iv_timer_registered(t), "C04.timer-not-registered-after-register");
 	r->registered = 1;
 	r->fired_this_reg = 0;
+	r->reg_wait = nwaits;
+	r->overdue = 0;
 	ghost_count++;
 }
 
@@ -350,6 +378,8 @@ static void h_timer(void *c)
 		e.sec = r->esec;
 		e.nsec = r->ensec;
 		sx_assert(have_reading && k_time_le(&e, &last_reading), "C04.timer-fired-early");
+		if (P_acts & ACT_VALIDATE)
+			check_iv_now(&e);
 		r->registered = 0;
 		ghost_count--;
 		free(r->obj);	/* may be freed from its handler */
@@ -427,7 +457,7 @@ static void h_task(void *c)
 struct act {
 	int kind, idx, arg;
 };
-enum { A_NONE, A_UNREG_FD, A_SETH, A_REG_FD, A_REG_TRY, A_TREG, A_TUNREG, A_JREG, A_JUNREG, A_QUIT, A_VALIDATE };
+enum { A_NONE, A_UNREG_FD, A_SETH, A_REG_FD, A_REG_TRY, A_TREG, A_TUNREG, A_JREG, A_JUNREG, A_QUIT, A_VALIDATE, A_INVALIDATE };
 
 static int enum_actions(struct act *out)
 {
@@ -461,8 +491,10 @@ static int enum_actions(struct act *out)
 			out[n++] = (struct act){ J[i].registered ? A_JUNREG : A_JREG, i, 0 };
 	if ((P_acts & ACT_QUIT) && in_main && !quit_called)
 		out[n++] = (struct act){ A_QUIT, 0, 0 };
-	if (P_acts & ACT_VALIDATE)
+	if (P_acts & ACT_VALIDATE) {
 		out[n++] = (struct act){ A_VALIDATE, 0, 0 };
+		out[n++] = (struct act){ A_INVALIDATE, 0, 0 };
+	}
 	return n;
 }
 
@@ -498,11 +530,14 @@ static void perform(struct act *a)
 		iv_quit();
 		quit_called = 1;
 		break;
-	case A_VALIDATE: {
-		const struct timespec *n = __iv_now_location_valid();
-		(void)n;
+	case A_VALIDATE:
+		sx_note("op:read-iv_now", 0);
+		check_iv_now(NULL);
 		break;
-	}
+	case A_INVALIDATE:
+		sx_note("op:iv_invalidate_now", 0);
+		iv_invalidate_now();
+		break;
 	}
 }
 
@@ -631,6 +666,20 @@ static void wait_entry(struct kwait_info *wi)
 						 : (armed ? ((A.sec == 0) & (A.nsec <= 1)) : 0);
 		sx_assert(immediate, "C06.sleeps-with-task-pending");
 	}
+	/* C04/C06: timers are serviced whatever else keeps the loop busy (tasks that keep re-registering, ready
+	 * descriptors): a timer that was registered before the previous wait was entered and whose expiry had
+	 * passed when that wait returned has run by now, or at the latest in the iteration after this one (one
+	 * iteration of grace covers an interrupted wait and a truncated event batch) */
+	for (i = 0; i < nT; i++) {
+		struct tmrec *r = &T[i];
+		struct ktime e = { r->esec, r->ensec };
+		if (!r->registered)
+			continue;
+		sx_assert(!r->overdue, "C06.due-timer-not-serviced-for-two-iterations");
+		if (nwaits >= 2 && prev_wait_returned && r->reg_wait < nwaits - 1 && k_time_le(&e, &k_last_wait_return))
+			r->overdue = 1;
+	}
+	prev_wait_returned = 0;
 	/* C04: never oversleeps */
 	for (i = 0; i < nT; i++) {
 		struct tmrec *r = &T[i];
@@ -673,6 +722,14 @@ static void wait_entry(struct kwait_info *wi)
 	}
 	if (armed)
 		sx_cover("C04.timerfd-armed");
+	/* concrete-clock runs: every iteration takes this much time, whether or not the library looks at the clock */
+	if (P_tick) {
+		k_now.nsec += P_tick;
+		while (k_now.nsec >= 1000000000L) {
+			k_now.nsec -= 1000000000L;
+			k_now.sec++;
+		}
+	}
 	/* new ground truth for this wait */
 	for (i = 0; i < nK; i++) {
 		struct kfd *f = &kfds[F[i].kfd];
@@ -707,6 +764,7 @@ static void wait_return(struct kwait_info *wi, int nready)
 
 	if (in_probe)
 		return;
+	prev_wait_returned = 1;
 	last_wait_nready = nready;
 	/* what did the kernel report for each harness descriptor? */
 	for (i = 0; i < nK; i++) {
@@ -796,6 +854,7 @@ void sx_main(void)
 	P_symtruth = (int)sx_opt("symtruth", 1);
 	P_persist = (int)sx_opt("persist", 0);
 	P_symtime = (int)sx_opt("symtime", 0);
+	P_tick = sx_opt("tick", 0);
 	P_faults = (int)sx_opt("faults", 0);
 	ops_left = P_L;
 	if (P_method < 0)
